@@ -221,3 +221,15 @@ Proof.
 Qed.
 
 End Merged.
+
+(* what an entry of the specification says, in the words of the property *)
+Theorem merged_spec_meaning n E a v : (v < n)%nat ->
+  (SeesFork E a v /\ nth v (merged_spec n E a) (false, 0) = (true, 0)) \/
+  (~ SeesFork E a v /\ exists M, nth v (merged_spec n E a) (false, 0) = (false, M) /\ MaxSeq E a v M).
+Proof.
+  intros Hv. unfold merged_spec. rewrite nth_map_seq_gen by exact Hv.
+  destruct (sees_fork E (anc E a) v) eqn:HS.
+  - left. split; [apply sees_fork_anc; exact HS|reflexivity].
+  - right. split; [intros H; apply sees_fork_anc in H; congruence|].
+    eexists. split; [reflexivity|apply merged_spec_max].
+Qed.
